@@ -92,6 +92,35 @@ def fixture_mod():
     return m
 
 
+def memo_verdict(model, mod, q, desc):
+    """is the shared object a write was found on a content-keyed memo table (cijsa.memo)?  (verdict, info)"""
+    import re as _re
+    from .. import memo
+    f = mod.funcs.get(q)
+    if f is None:
+        return None, ""
+    m1 = _re.search(r"module-level object (\w+)", desc)
+    m2 = _re.search(r"class-level mutable attribute (\w+)\.(\w+)", desc)
+    if m1 and m1.group(1) in mod.globals:
+        g = m1.group(1)
+        is_c = lambda n: isinstance(n, ast.Name) and n.id == g
+        elsewhere = [q2 for q2, f2 in mod.funcs.items() if f2 is not f and not q2.startswith(q + ".") and not q.startswith(q2 + ".")
+                     and any(is_c(n) for n in ast.walk(f2))]
+        for mn2, mod2 in model.mods.items():
+            if mod2 is not mod and g in mod2.imports and str(mod2.imports[g]).find(mod.name.split(".")[-1]) >= 0:
+                elsewhere.append(mn2)
+    elif m2:
+        cname, attr = m2.group(1), m2.group(2)
+        is_c = lambda n: isinstance(n, ast.Attribute) and n.attr == attr and isinstance(n.value, ast.Name) and n.value.id in ("self", "cls", cname)
+        elsewhere = [q2 for q2, f2 in mod.funcs.items() if f2 is not f and any(isinstance(n, ast.Attribute) and n.attr == attr for n in ast.walk(f2))]
+        for mn2, mod2 in model.mods.items():
+            if mod2 is not mod and any(isinstance(n, ast.Attribute) and n.attr == attr for n in ast.walk(mod2.tree)):
+                elsewhere.append(mn2)
+    else:
+        return None, ""
+    return memo.analyse(mod, q, f, is_c, elsewhere)
+
+
 def r_module_state(ctx, model):
     fx = fixture_mod()
     ctl = module_state_writes(model, fx) + class_state_writes(fx)
@@ -101,10 +130,21 @@ def r_module_state(ctx, model):
     ctx.extra["positive_controls_module_state"] = len(ctl)
     n = 0
     total = 0
+    n_memo = 0
     for mname, mod in live_modules(model):
         n += len(mod.funcs)
         for q, node, desc in module_state_writes(model, mod) + class_state_writes(mod):
+            verdict, info = memo_verdict(model, mod, q, desc)
+            if verdict == "benign":
+                n_memo += 1
+                ctx.ok(f"{q}: {desc.split(' (')[0]} is a memo table keyed by content", Where(mod.rel, q, getattr(node, "lineno", 0)),
+                       f"key ({', '.join(info['key'])}) determines everything the memoised computation reads; {'; '.join(info['determined'])}; assumptions: {info['assumptions']}")
+                continue
             total += 1
+            if verdict == "harmful":
+                ctx.violation(f"{q}:{desc.split(' (')[0]}", Where(mod.rel, q, getattr(node, "lineno", 0)), expected="a memo shared by the process is keyed by everything its entries were computed from",
+                              found=desc, explanation=f"{q} keeps results in {desc.split(' (')[0]} for the life of the process, and {info}", instance=f"{mname}:{q}")
+                continue
             ctx.violation(f"{q}:{desc.split(' (')[0]}", Where(mod.rel, q, getattr(node, "lineno", 0)), expected="no store into module-level / class-level / default-argument state",
                           found=desc, explanation=f"{q} writes {desc}: state shared by every calculation in the process, so a result can "
                                                   f"depend on calculations performed earlier", instance=f"{mname}:{q}")
